@@ -98,6 +98,14 @@ def _fold(node, env, classes, where):
             return math.sqrt(v)
         if fn in ("numpy.copy", "np.copy") and len(node.args) == 1:
             return _fold(node.args[0], env, classes, where)
+        # method spellings of the same: X.copy(), X.astype(float64 / numpy.float64), numpy.ascontiguousarray(X)
+        if isinstance(node.func, ast.Attribute) and node.func.attr == "copy" and not node.args and not node.keywords:
+            return _fold(node.func.value, env, classes, where)
+        if isinstance(node.func, ast.Attribute) and node.func.attr == "astype" and len(node.args) == 1 and not node.keywords and \
+                (_fold(node.args[0], env, classes, where) if not isinstance(node.args[0], ast.Constant) else node.args[0].value) in ("float64", "float", "double"):
+            return _fold(node.func.value, env, classes, where)
+        if fn in ("numpy.ascontiguousarray", "np.ascontiguousarray", "numpy.asanyarray", "np.asanyarray") and len(node.args) == 1 and not node.keywords:
+            return _fold(node.args[0], env, classes, where)
         if fn == "tuple" and not node.args:
             return ()
         if fn == "float" and len(node.args) == 1:
